@@ -1360,6 +1360,19 @@ void XMLScanner::scanProlog()
 //  The parameter tells us which type of decl we should expect, Text or XML.
 //    [23] XMLDecl ::= '<?xml' VersionInfo EncodingDecl? SDDecl? S? '?>'
 //    [77] TextDecl::= '<?xml' VersionInfo? EncodingDecl S? '?>'
+//    [26] VersionNum ::= '1.' [0-9]+
+static bool isVersionNum1x(const XMLCh* const value)
+{
+    if (!XMLString::startsWith(value, XMLUni::fgVersion1) || !value[2])
+        return false;
+    for (const XMLCh* p = value + 2; *p; p++)
+    {
+        if (!XMLString::isDigit(*p))
+            return false;
+    }
+    return true;
+}
+
 void XMLScanner::scanXMLDecl(const DeclTypes type)
 {
     // Get us some buffers to use
@@ -1466,7 +1479,7 @@ void XMLScanner::scanXMLDecl(const DeclTypes type)
                     fReaderMgr.setXMLVersion(XMLReader::XMLV1_0);
                 }
             }
-            else if (XMLString::startsWith(rawValue, XMLUni::fgVersion1)) {
+            else if (isVersionNum1x(rawValue)) {
                 if (type == Decl_XML) {
                     fXMLVersion = XMLReader::XMLV1_0;
                     fReaderMgr.setXMLVersion(XMLReader::XMLV1_0);
